@@ -621,7 +621,14 @@ class Exec(Executor):
                     acc = part if acc is None else self.seq_concat(acc, part, st)
                 env[a.vararg.arg] = acc
             else:
-                env[a.vararg.arg] = PyTuple(rest)
+                tup = PyTuple(rest)
+                etd = self.types.td_of_annotation(a.vararg.annotation, fi.module)
+                if rest and all(isinstance(x, SV) for x in rest) and etd.sort is not None:
+                    env[a.vararg.arg] = self.to_sv(tup, TSeqT(etd), st, node)
+                elif not rest and etd.sort is not None:
+                    env[a.vararg.arg] = SV(TSeqT(etd), TSeqT(etd).info.empty)
+                else:
+                    env[a.vararg.arg] = tup
         elif rest:
             raise OutsideSubset(f"too many positional arguments for {fi.qualname}", node)
         kwonly = [x.arg for x in a.kwonlyargs]
@@ -686,12 +693,24 @@ class Exec(Executor):
                         return k
         return None
 
+    def find_virtual(self, fi: FuncInfo) -> Contract | None:
+        """The virtual contract governing every override of this method, if any."""
+        if fi.cls is None:
+            return None
+        for c in fi.cls.mro:
+            m = c.methods.get(fi.name)
+            if m is not None:
+                k = self.reg.get(m.key)
+                if k is not None and k.virtual:
+                    return k
+        return None
+
     def call_function(self, fi: FuncInfo, recv: Any, args: list[Any], kwargs: dict[str, Any], st: State, node: ast.AST,
                       dispatch_cls: ClassInfo | None = None) -> list[Res]:
         # virtual dispatch: when the receiver's class is not pinned down, either use a virtual
         # contract or fork over the implementations
         if isinstance(recv, SV) and isinstance(recv.td, TRefT) and recv.td.cls is not None and fi.kind in ("method", "property") and dispatch_cls is None:
-            k = self.find_contract(fi, None)
+            k = self.find_virtual(fi)
             if not (k is not None and k.virtual and not k.inline and self.modular):
                 impls: dict[str, tuple[FuncInfo, list[ClassInfo]]] = {}
                 for c in self.candidates(recv, st):
@@ -717,6 +736,10 @@ class Exec(Executor):
         if fi.abstract and not self.find_contract(fi, None):
             raise NeedsContract(f"call of abstract {fi.qualname} without a contract", node)
         k = self.find_contract(fi, dispatch_cls)
+        if dispatch_cls is None and fi.kind in ("method", "property") and isinstance(recv, SV):
+            vk = self.find_virtual(fi)
+            if vk is not None:
+                k = vk  # receiver class not pinned down: only the virtual contract is known to hold
         hook = self.hooks.get("call_function")
         if hook is not None:
             r = hook(self, fi, recv, args, kwargs, st, node)
@@ -780,18 +803,26 @@ class Exec(Executor):
             self.oblige(st, f"call {fi.qualname.split(':')[-1]}/pre/{cl.label}", smt.lift(cl.fn(ctx)).z, node, kind="pre")
         td = self.result_td(k, fi)
         post = st.fork()
-        if k.modifies:
+        if k.modifies and not isinstance(recv, UnderConstruction):
             post.heap = dict(post.heap)
             for key in k.modifies:
                 if key in post.heap:
                     post.heap[key] = z3.Const(smt.fresh_name(f"H_{key}"), post.heap[key].sort())
             post.heap_version += 1
+        if isinstance(recv, UnderConstruction):
+            # contract of a __post_init__: ``modifies`` names the fields it may re-bind
+            for fname in k.modifies:
+                cur = recv.pending(post).get(fname)
+                if isinstance(cur, SV):
+                    nv = cur.td.fresh("post_" + fname)
+                    post.assume(*self.type_facts(nv.z, cur.td, post))
+                    recv.set_pending(post, fname, nv)
         if k.attr and isinstance(recv, SV):
             assert fi.cls is not None
             res: Any = SV(td, self.types.attr_symbol(fi.cls, fi.name, td)(recv.z))
         elif k.pure:
             zs = [v.z for v in env.values() if isinstance(v, SV)]
-            f = self.pure_symbol(k.key, [z.sort() for z in zs], td.sort)
+            f = k.symbol if k.symbol is not None else self.pure_symbol(k.key, [z.sort() for z in zs], td.sort)
             res = SV(td, f(*zs))
         else:
             res = td.fresh("r_" + fi.name)
@@ -810,6 +841,10 @@ class Exec(Executor):
             cz = smt.lift(cond(ctx)).z if cond is not None else z3.BoolVal(True)
             if self.feasible(st, cz):
                 s2 = st.fork().assume(cz)
+                ectx = Ctx(self, env, "assume", s2, st)
+                ectx.exc = exc
+                for cl in k.exc_ensures:
+                    s2.assume(smt.lift(cl.fn(ectx)).z)
                 s2.path.append(f"L{getattr(node, 'lineno', 0)}:{fi.name}:raises {exc}")
                 out.append(Res("raise", None, s2, exc=exc, node=node, note=f"from contract of {fi.qualname}"))
         for lab, excs, cond in k.must_raise:
@@ -907,6 +942,9 @@ class Exec(Executor):
             post = ci.lookup("__post_init__")
             if post is not None:
                 iv = [initvars[n] for n in [x.arg for x in post.node.args.args[1:]] if n in initvars]
+                pk = self.find_contract(post, ci)
+                if pk is not None and self.modular and not pk.inline:
+                    return self.bind(self.call_contract(pk, post, uc, iv, {}, s, node), lambda _r, s2: self.commit(uc, s2, node))
                 return self.bind(self.inline_call(post, uc, iv, {}, s, node, ci), lambda _r, s2: self.commit(uc, s2, node))
             return self.commit(uc, s, node)
 
@@ -1117,10 +1155,12 @@ class Exec(Executor):
             body = self.truth(r1[0].value, r1[0].state, node)
             side = r1[0].state.pc[base_n:]
             rng = z3.And(0 <= i, i < info.len(it.z))
+            if side:
+                st.assume(z3.ForAll([i], z3.Implies(rng, z3.And(*side)), patterns=[info.at(it.z, i)]))
             if name == "all":
-                z = z3.ForAll([i], z3.Implies(rng, z3.And(body, *side) if False else z3.Implies(z3.And(*side) if side else z3.BoolVal(True), body)), patterns=[info.at(it.z, i)])
+                z = z3.ForAll([i], z3.Implies(rng, body), patterns=[info.at(it.z, i)])
             else:
-                z = z3.Exists([i], z3.And(rng, body, *side))
+                z = z3.Exists([i], z3.And(rng, body))
             return self.ok(SV(TBool, z), st)
         raise OutsideSubset(f"{name}() over {it!r}", node)
 
